@@ -393,7 +393,7 @@ class C10Machine(Machine):
                 return {"skipped": "full"}
             try:
                 conv = c.Converter([c.Record(**r) for r in op["records"]], delimiter=op.get("delimiter", ":"))
-            except ValueError:
+            except Exception:  # noqa: BLE001 - building roots is not what this property is about
                 return {"skipped": "invalid records"}
             h = self._add(conv, [], "new", op.get("out"))
             self.event("new")
